@@ -1,7 +1,7 @@
 """C19 - IBD segments are exactly the maximal shared-path intervals of each sample pair (structural clauses)."""
 from __future__ import annotations
 
-from . import scopes, lib_ibd, lib_guards, lib_gate, lib_module, lib_py, lib_err
+from . import scopes, lib_ibd, lib_guards, lib_gate, lib_module, lib_py, lib_err, lib_mem
 
 LEVEL = "other"
 EXPLANATION = ("Exact sample / partition id guards and the integrity gate on the ibd_segments paths, counter pairing so the "
@@ -41,3 +41,4 @@ def run(ctx):
             continue
         src = tu.src(fn.body)
         ctx.ob(rule, f, code in src and flag in src, tu.loc(fn.node), "%s guarded by %s" % (f, code))
+    lib_mem.c_lints(ctx, ctx.program(), scopes.lib_scope("C19"))
